@@ -302,7 +302,7 @@ PROPS["C03"] = {
     "title": "Extensions and edges denote exactly the real adjacencies, symmetrically",
     "kani": lambda tier: exts(EXTS_ALL) + kfam(["k_rc", "k_extend_left", "k_extend_right"], tier),
     "verus": [("graphfn", r"^(DebruijnGraph::|Node::|BaseGraph::)"), ("nodesall", r"^Node::(l_edges|r_edges|edges)$"),
-              ("prune", r"^(pruned_exts|pruned_exts_sharded|lemma_search_table|lemma_search_list)$"),
+              ("prune", r"^(remove_censored_exts_whole|remove_censored_exts_sharded_whole|pruned_exts|pruned_exts_sharded|lemma_search_table|lemma_search_list|lemma_table_has_keys)$"),
               ("maxpath", r"^commit_step$")],
     "bounded": lambda tier: [("filter::verif::f_remove_censored_3", "3 table entries, Kmer4, both strandedness values"),
                              ("filter::verif::f_remove_censored_sharded", "2 valid entries, 3 shard k-mers, Kmer4")],
@@ -311,12 +311,12 @@ PROPS["C03"] = {
         "set of resolvable edges == set of observed (K+1)-mers (needs the C05 kernel and C01)",
         "global symmetry u->v => v->u (a property of the constructed graph, not of one call)",
         "max_path / max_path_beam (f32 scores, closures capturing closures, candidate scan over SmallVec edges) and sequence_of_path as wholes; of max_path the step that commits the chosen successor IS under contract (unit maxpath, rule R15: the successor is taken only if not yet used, is marked used and put on the proper end with the proper orientation - the step invariant behind 'no node repeated in a best path'); of sequence_of_path the body of its loop over the path IS under contract (graphfn::path_step, rule R15: one step appends the node's sequence - reverse complemented when traversed reversed - minus the K-1 bases overlapping the previous node), the loop header (enumerate + reference pattern) is not",
-        "remove_censored_exts(_sharded): the computation of each entry's new extension byte IS under contract (unit prune, rule R15 statement range: kept exactly when present and the target k-mer is a table key - sharded: or not a k-mer of this shard at all), given the assumed contracts of the two std binary searches on sorted slices; the loop over the entries and the final store `(valid_kmers[idx].1).0 = new_exts` (field assignment through IndexMut) are covered by the bounded stand-in only"],
+        "remove_censored_exts(_sharded) ARE under contract as whole functions (unit prune: every entry keeps key and payload and keeps an extension exactly when it had it and the target k-mer is a table key - sharded: or is not a k-mer of this shard at all), but only relative to the ASSUMED contracts of the two std binary searches and the hypothesis that the slices are sorted as those searches require (token keys_sorted; for the table: a function of its keys only)"],
     "trust": VERUS_TRUST + GRAPH_TRUST + [SEAM_NOTE,
         "std slice binary searches (binary_search_by_key, binary_search): on a slice sorted as the search requires they answer Ok exactly when an element with that key / value exists (assumed; sortedness is the callers' obligation, token keys_sorted); k-mers are equal exactly when they spell the same bases (axiom_kmer_eq; Kani family k_eq_ord)",
         "graph well-formedness (DebruijnGraph::wf): every node has >= K bases; left_order/right_order map exactly the first/last k-mers of the nodes to their ids"],
-    "level_text": "find_link is proved to return Some((id, side, flip)) only for a node whose terminal k-mer on `side` equals the query (its reverse complement when flip), with (dir, side, flip) one of the four consistent shapes, flip only when unstranded and only when no same-strand match exists, and None exactly when no node end matches; find_edges (and the public Node::l_edges / r_edges / edges) returns only resolved links of the node's own extension bases and one for every extension base that resolves; get_valid_exts / fix_exts are proved exact: an extension is kept iff it was present and resolves to a valid (non-censored) node, dropped only if unresolvable or censored, and nothing but the extension vector changes (Verus, unbounded, real bodies incl. the check_node closure).",
-    "level_note": "Partial claim (see undecided_clauses). Trusted: Verus/Z3, extractor rules, abstract BoomHashMap/BitSet/SmallVec contracts, the V<->K seam. Table pruning (remove_censored_exts*) is a bounded Kani stand-in only.",
+    "level_text": "find_link is proved to return Some((id, side, flip)) only for a node whose terminal k-mer on `side` equals the query (its reverse complement when flip), with (dir, side, flip) one of the four consistent shapes, flip only when unstranded and only when no same-strand match exists, and None exactly when no node end matches; find_edges (and the public Node::l_edges / r_edges / edges) returns only resolved links of the node's own extension bases and one for every extension base that resolves; get_valid_exts / fix_exts are proved exact: an extension is kept iff it was present and resolves to a valid (non-censored) node, dropped only if unresolvable or censored, and nothing but the extension vector changes (Verus, unbounded, real bodies incl. the check_node closure). remove_censored_exts and remove_censored_exts_sharded are proved, as whole functions, to leave keys and payloads untouched and to keep an extension exactly when it was present and its target k-mer is a key of the table (sharded: or is not among the shard's k-mers), given std's binary searches on sorted slices.",
+    "level_note": "Partial claim (see undecided_clauses). Trusted: Verus/Z3, extractor rules, abstract BoomHashMap/BitSet/SmallVec contracts, the V<->K seam. Table pruning (remove_censored_exts, remove_censored_exts_sharded) is proved on the real bodies relative to the assumed std binary-search contracts (sortedness is the callers' obligation); the bounded Kani harnesses remain as cross-checks and fallbacks.",
 }
 
 PROPS["C05"] = {
@@ -328,7 +328,7 @@ PROPS["C05"] = {
     "design_ref": "DESIGN.md §6 C05",
     "undecided": [
         "the grouping step (per-bucket sort_by_key + itertools group_by + one summarize call per group + BoomHashMap2::new): iterator-adapter / third-party code neither verifier reaches, so 'each distinct k-mer summarised exactly once over exactly its observations in input order' is decided only up to 'every observation is recorded exactly once, under its canonical key, in that key's bucket, in the one pass that owns the bucket' (obskernel + passplan); the stable sort / group_by / summarize composition is NOT decided",
-        "the two outer loops (over passes and reads) are not under contract; the payload `d.clone()` is unspecified",
+        "the two outer loops (over passes and reads) are not under contract; the payload `d.clone()` is unspecified; what happens to a group AFTER summarize is (summarize::record_group, rule R15: the k-mer joins the all-k-mers list exactly when requested, and (k-mer, extensions, summary) join the table exactly when the summarizer accepted)",
         "CountFilter::summarize: the step of its loop is proved (count capped at 65535, extensions a union - unit summarize); the loop over the caller's generic Iterator and the final threshold test are only in the bounded stand-in",
         "CountFilterSet::summarize (Vec sort + dedup) is intractable for CBMC even at 3 observations (12 GB, > 40 min): not decided"],
     "trust": VERUS_TRUST + [SEAM_NOTE, "R15: the pass-planning statement range of filter_kmers is verified inside a wrapper function of (kmer_mem, max_mem); max_mem > 0, kmer_mem < usize::MAX"],
